@@ -110,6 +110,34 @@ fn raster_next_step() {
     assert!(sl.vs.val.0.y() == y);
 }
 
+// @ob props=C02,C04 tier=quick kind=P cfg=core-std timeout=1800
+// @fn <ScanlineIter<V> as Iterator>::next
+// @clause modular: against the CONTRACT of round_up_to_half alone (its body replaced by the contract), one step of the scanline iterator yields a span whose ends are pixel centres with start-centre in (x_left, x_left+1] and end-centre in (x_right, x_right+1], i.e. exactly the centres in (x_left, x_right]; both calls satisfy the contract's precondition for coordinates in [0, 2^22]
+#[cfg(not(verif_skip_raster_next_step_modular))]
+#[kani::proof]
+#[kani::stub_verified(round_up_to_half)]
+fn raster_next_step_modular() {
+    let y = any_f(0.5, 1024.5);
+    kani::assume(is_int(y - 0.5));
+    let (xl, xr) = (any_f(0.0, 4194304.0), any_f(0.0, 4194304.0));
+    let left: Varyings<()> = (pt3(xl, y, 1.0), ());
+    let mut it: ScanlineIter<()> = ScanlineIter {
+        y,
+        left: left.vary((vec3(any_f(-100.0, 100.0), 1.0, 0.0), ()), None),
+        right: xr.vary(any_f(-100.0, 100.0), None),
+        dv_dx: (vec3(1.0, 0.0, 0.0), ()),
+        n: 1,
+    };
+    let sl = it.next().unwrap();
+    kani::cover!(xl + 2.0 < xr);
+    let (x0, x1) = (sl.xs.start as F + 0.5, sl.xs.end as F + 0.5);
+    assert!(is_round_up_to_half(xl, x0) && is_round_up_to_half(xr, x1));
+    assert!(sl.y as F == y - 0.5 && it.n == 0 && it.y == y + 1.0);
+    if sl.xs.end >= sl.xs.start {
+        assert!(sl.vs.n == Some((sl.xs.end - sl.xs.start) as u32));
+    }
+}
+
 // @ob props=C02,C04 tier=quick kind=P cfg=core-std timeout=600
 // @fn <ScanlineIter<V> as Iterator>::next
 // @clause the scanline iterator returns None exactly when n = 0 and then changes nothing
